@@ -50,6 +50,15 @@ CLAIMS = {
             "edge of verify_role with the right delegating document/role name. Cryptography itself is "
             "trusted, not decided.",
             "DESIGN.md §4 C01"),
+    "C02": ("MIR dominance / loop-exit classification / value-origin (reaching definitions) analysis "
+            "of load_root and Repository::load; file-name template analysis",
+            "Decides on every path: the shipped root is self-verified before any fetch; a fetched root is "
+            "adopted only after verify_role under the currently trusted root AND under its own keys, "
+            "with version not lower and not equal; the walk ends normally only on fetch error / "
+            "FileNotFound / equal version (any verification or parse failure returns Err); the next "
+            "file requested is <trusted version + 1>.root.json; all later roles are verified against "
+            "load_root's result. Structural; transport behaviour not decided.",
+            "DESIGN.md §4 C02"),
 }
 
 NOT_YET = {}
